@@ -83,6 +83,7 @@ func minCircle(nodes map[string]*MapNode) []*MapNode {
 				// a node smaller than the start; skip it
 				continue
 			}
+			vmap[name] = true
 
 			trace = append(trace, &searchNode{
 				start:  start,
